@@ -289,14 +289,17 @@ class Replacer:
 
     def __call__(self, uri):
         scheme, location, path, query, fragment = urllib.parse.urlsplit(uri)
-        if scheme or location or path.startswith('/') or not path:
+        if scheme or not (location or path):
             # keep anything absolute (and references to the document itself)
             return uri
 
-        scheme, location = urllib.parse.urlsplit(self.href)[:2]
-        if scheme or location:
+        base_scheme, base_location = urllib.parse.urlsplit(self.href)[:2]
+        if base_scheme or base_location:
             # imported from another location, only an absolute URL points there
             return urllib.parse.urljoin(self.href, uri)
+
+        if location or path.startswith('/'):
+            return uri
 
         combined = posixpath.normpath(posixpath.join(self.base, path))
         if path.endswith('/'):
